@@ -1,12 +1,13 @@
 /* Contract for the hill-creation statements of colvarbias_meta::update_bias (C05), symbolic reals, ebmeta off, single replica.
    Exactly one hill is added, stamped with the absolute step, centred at the bias's current variable values with its configured widths,
    with weight  hillWeight * s,  s = 1 for plain metadynamics and  s = 1 * exp( (-1 * V) / (biasTemperature * kB) )  for well-tempered runs,
-   V = the tabulated bias at the current bin when grids are used, else the analytic sum over the hills (0 + sum). */
+   V = the tabulated bias at the current bin when grids are used and the variable is inside the grid, the analytic sum over the hills near the
+   grid boundaries when it is outside (the grid is never read out of range), the analytic sum over all hills without grids. */
 #ifndef WTMETA_CONTRACT_H
 #define WTMETA_CONTRACT_H
 #include <stddef.h>
 #include "../common/term.h"
-extern int g_node[12]; extern long long e_l[8]; extern int g_nhill, g_hill_w; extern long long g_hill_step; extern int g_hill_c, g_hill_s; extern int g_nsum;
+extern int g_node[12]; extern long long e_l[8]; extern int g_nhill, g_hill_w; extern long long g_hill_step; extern int g_hill_c, g_hill_s; extern int g_nsum; extern int g_inrange, g_sum_range;
 extern int g_throw, g_debug; extern unsigned g_errors, g_error_bits; extern long long g_step_rel, g_step_abs;
 extern double g_kb;
 double k_boltzmann(void) __CPROVER_assigns() __CPROVER_ensures(__CPROVER_return_value == g_kb);
@@ -16,17 +17,20 @@ static int t_op(int n) { return TVALID(n) ? g_top(n) : -1; }
 static int t_a(int n) { return TVALID(n) ? g_ta(n) : -2; }
 static int t_b(int n) { return TVALID(n) ? g_tb(n) : -2; }
 static _Bool is_leaf(int n, double x) { return P_LEAF(n, x); }
-static _Bool is_v(int n, _Bool use_grids) { return use_grids ? (t_op(n) == T_CALL + CID_GRIDVAL) : (t_op(n) == T_ADD && is_leaf(t_a(n), 0.0) && t_op(t_b(n)) == T_CALL + CID_HILLSUM); }
+/* V: the tabulated bias at the current bin when grids are used AND the variable is inside the grid; outside the grid the analytic sum over the hills
+   near its boundaries (range 2); without grids the analytic sum over the hills in memory (range 1) */
+static _Bool is_sum(int n, int range) { return t_op(n) == T_ADD && is_leaf(t_a(n), 0.0) && t_op(t_b(n)) == T_CALL + CID_HILLSUM && t_a(t_b(n)) == range; }
+static _Bool is_v(int n, _Bool use_grids) { return use_grids ? (g_inrange ? (t_op(n) == T_CALL + CID_GRIDVAL) : is_sum(n, 2)) : is_sum(n, 1); }
 static _Bool is_kt(int n) { return t_op(n) == T_MUL && t_a(n) == g_node[1] && is_leaf(t_b(n), g_kb); }
 static _Bool is_arg(int n, _Bool use_grids) { int m = t_a(n); return t_op(n) == T_DIV && is_kt(t_b(n)) && t_op(m) == T_MUL && is_leaf(t_a(m), -1.0) && is_v(t_b(m), use_grids); }
 static _Bool is_scale(int n, _Bool wt, _Bool use_grids) { if (!wt) return is_leaf(n, 1.0);
   return t_op(n) == T_MUL && is_leaf(t_a(n), 1.0) && t_op(t_b(n)) == T_CALL + CID_EXP && is_arg(t_a(t_b(n)), use_grids); }
 static _Bool weight_ok(_Bool wt, _Bool use_grids) { int w = g_hill_w; return t_op(w) == T_MUL && t_a(w) == g_node[0] && is_scale(t_b(w), wt, use_grids); }
 void k_new_hill(_Bool well_tempered, _Bool use_grids)
-__CPROVER_requires(g_tn == 0 && g_nhill == 0 && g_nsum == 0 && g_kb >= 0.0 && g_kb <= 1.0 && g_step_abs >= 0)
-__CPROVER_assigns(__CPROVER_object_whole(g_node), __CPROVER_object_whole(e_l), TERM_FRAME, g_nhill, g_hill_w, g_hill_step, g_hill_c, g_hill_s, g_nsum)
+__CPROVER_requires(g_tn == 0 && g_nhill == 0 && g_nsum == 0 && g_kb >= 0.0 && g_kb <= 1.0 && g_step_abs >= 0 && (g_inrange == 0 || g_inrange == 1))
+__CPROVER_assigns(__CPROVER_object_whole(g_node), __CPROVER_object_whole(e_l), TERM_FRAME, g_nhill, g_hill_w, g_hill_step, g_hill_c, g_hill_s, g_nsum, g_sum_range)
 __CPROVER_ensures(g_nhill == 1 && g_hill_step == g_step_abs && g_hill_c == 3 && g_hill_s == 4)
 __CPROVER_ensures(weight_ok(well_tempered, use_grids))
-__CPROVER_ensures(g_nsum == ((well_tempered && !use_grids) ? 1 : 0))
+__CPROVER_ensures(g_nsum == ((well_tempered && (!use_grids || !g_inrange)) ? 1 : 0))
 ;
 #endif
